@@ -39,6 +39,8 @@ def op_term(toks):
         return "OReindexed %s" % z(a[0])
     if k == "blocked":
         return "OBlocked %s %s" % (z(a[0]), z(a[1]))
+    if k == "reindexedl":
+        return "OReindexedL [%s]" % "; ".join(z(x) for x in a)
     if k == "paren":
         args, rest = [], a[1:]
         while rest:
